@@ -297,25 +297,33 @@ def showEv : Ev → String
   | .call t o => s!"C{t}:{opName o}"
   | .ret t r => s!"R{t}:{showRes r}"
 
-def finish (st : CaseSt) : Except String (List String) :=
+def finish (liveness : Bool) (st : CaseSt) : Except String (List String) :=
   match st.skip with
   | some why => .ok [why]
   | none =>
     if st.seqMode then .ok ["seq-case"]
     else
       let h := st.hist.reverse
-      match linearize st.fl linCfg h with
+      let quiesce := liveness && st.status.startsWith "deadlock"
+      match linearize st.fl linCfg h quiesce with
       | none =>
-        let k := shortestBadPrefix st.fl linCfg h
-        .error s!"not-linearizable prefix={k} of={h.length} last={(h.take k).getLast?.map showEv |>.getD "-"}"
+        if quiesce ∧ linearizable st.fl linCfg h then
+          -- explainable as a history, but only with a never-returned operation that could still move
+          -- in the final state: a lost wakeup (C05 / C06)
+          .error s!"blocked-op-enabled-at-quiescence status={st.status}"
+        else
+          let k := shortestBadPrefix st.fl linCfg h
+          .error s!"not-linearizable prefix={k} of={h.length} last={(h.take k).getLast?.map showEv |>.getD "-"}"
       | some s =>
         match st.drops with
-        | none => .ok ["lin-ok", "lin-incomplete"]
+        | none => .ok ["lin-ok", if quiesce then "lin-quiescent" else "lin-incomplete"]
         | some d =>
           match compareDrops s d with
           | .ok _ => .ok ["lin-ok", "drops-checked"]
           | .error m => .error m
 
-def engine : Engine CaseSt := { init := init, step := step, finish := finish }
+/-- `liveness`: at `X deadlock` additionally require every never-returned operation to be disabled in
+the final model state (C05 / C06); off for the safety properties, whose ties must not depend on it. -/
+def engine (liveness : Bool := false) : Engine CaseSt := { init := init, step := step, finish := finish liveness }
 
 end Fv.Driver.Chan
